@@ -481,15 +481,15 @@ fn tasks_for(prop: &str, tier: &str, seed: u64) -> Vec<Task> {
                             _ => scen_native::c12_native::<Ed>(maxlen + 1),
                         };
                         let mut checks = checks;
-                        if prop == "C08" && c == "secq256k1" {
+                        if prop == "C08" {
                             // memory clause: the long-list cases run in a child process with a 3 GB address space
                             let exe = std::env::current_exe().unwrap();
-                            let r = std::process::Command::new("sh").arg("-c").arg(format!("ulimit -v 3145728; exec {} c08-child --seed {}", exe.display(), seed)).output();
+                            let r = std::process::Command::new("sh").arg("-c").arg(format!("ulimit -v 3145728; exec {} c08-child --seed {} --curve {}", exe.display(), seed, c)).output();
                             let (ok, what) = match r {
                                 Ok(o) => (o.status.success() && String::from_utf8_lossy(&o.stdout).contains("c08-child ok"), format!("status {:?}; {}", o.status.code(), String::from_utf8_lossy(&o.stderr).lines().last().unwrap_or("").to_string())),
                                 Err(e) => (false, format!("{}", e)),
                             };
-                            checks.push((format!("proofs with two round lists of k = 5..31 entries are decoded, verified and batch-verified inside a 3 GB address space (child process): {}", what), ok));
+                            checks.push((format!("proofs with two round lists of k = 5..31 entries are decoded, verified and batch-verified, and encodings with inflated list counts are decoded (FormatError), inside a 3 GB address space without the process aborting (child process): {}", what), ok));
                         }
                         native_job(&prop, "native", &c, seed, checks, replay)
                     }),
@@ -733,7 +733,11 @@ fn main() {
         }
         Some("c08-child") => {
             let seed: u64 = get("--seed").and_then(|s| s.parse().ok()).unwrap_or(0);
-            let ok = scen_native::c08_child::<Secq>(seed);
+            let ok = match get("--curve").as_deref() {
+                Some("zorro") => scen_native::c08_child::<Zorro>(seed),
+                Some("curve25519") => scen_native::c08_child::<Ed>(seed),
+                _ => scen_native::c08_child::<Secq>(seed),
+            };
             println!("c08-child {}", if ok { "ok" } else { "FAILED" });
             std::process::exit(if ok { 0 } else { 1 });
         }
